@@ -29,8 +29,100 @@ type meanExpr struct {
 	counter *ast.Ident
 }
 
+// hoistedDef: "k := <rhs>" in a statement list, with the statements that
+// follow it in that list.
+type hoistedDef struct {
+	rhs  ast.Expr
+	rest []ast.Stmt
+}
+
+// validAt: the use at pos lies in one of the following statements of the same
+// list and no statement of the list up to (and including the part before) it
+// assigns the counter the definition reads or the accumulator.
+func (h hoistedDef) validAt(info *types.Info, pos token.Pos, accum *types.Var) bool {
+	bid := reciprocalOfCount(info, h.rhs)
+	if bid == nil {
+		return false
+	}
+	counter := info.Uses[bid]
+	for _, st := range h.rest {
+		dirty := false
+		ast.Inspect(st, func(n ast.Node) bool {
+			switch x := n.(type) {
+			case *ast.AssignStmt:
+				for _, l := range x.Lhs {
+					if id, ok := l.(*ast.Ident); ok && (info.Uses[id] == counter || info.Uses[id] == types.Object(accum)) {
+						dirty = true
+					}
+				}
+			case *ast.IncDecStmt:
+				if id, ok := x.X.(*ast.Ident); ok && info.Uses[id] == counter {
+					dirty = true
+				}
+			}
+			return true
+		})
+		if st.Pos() <= pos && pos <= st.End() {
+			return !dirty
+		}
+		if dirty {
+			return false
+		}
+	}
+	return false
+}
+
+// reciprocalOfCount recognises 1 / float64(B) with B a local integer variable.
+func reciprocalOfCount(info *types.Info, e ast.Expr) *ast.Ident {
+	quo, ok := ast.Unparen(e).(*ast.BinaryExpr)
+	if !ok || quo.Op != token.QUO {
+		return nil
+	}
+	if tv := info.Types[quo.X]; tv.Value == nil || constant.Compare(constant.ToFloat(tv.Value), token.NEQ, constant.MakeFloat64(1)) {
+		return nil
+	}
+	conv, ok := ast.Unparen(quo.Y).(*ast.CallExpr)
+	if !ok || len(conv.Args) != 1 {
+		return nil
+	}
+	if tv, ok := info.Types[conv.Fun]; !ok || !tv.IsType() {
+		return nil
+	}
+	bid, ok := ast.Unparen(conv.Args[0]).(*ast.Ident)
+	if !ok {
+		return nil
+	}
+	bv, _ := info.Uses[bid].(*types.Var)
+	if bv == nil || !isIntVar(bv) || bv.IsField() {
+		return nil
+	}
+	return bid
+}
+
 func findMeanExprs(info *types.Info, body ast.Node) []meanExpr {
 	var res []meanExpr
+	hoisted := map[types.Object]hoistedDef{}
+	ast.Inspect(body, func(n ast.Node) bool {
+		var list []ast.Stmt
+		switch x := n.(type) {
+		case *ast.BlockStmt:
+			list = x.List
+		case *ast.CaseClause:
+			list = x.Body
+		}
+		for i, st := range list {
+			as, ok := st.(*ast.AssignStmt)
+			if !ok || as.Tok != token.DEFINE || len(as.Lhs) != 1 || len(as.Rhs) != 1 {
+				continue
+			}
+			id, ok := as.Lhs[0].(*ast.Ident)
+			if !ok || info.Defs[id] == nil {
+				continue
+			}
+			hoisted[info.Defs[id]] = hoistedDef{as.Rhs[0], list[i+1:]}
+		}
+		return true
+	})
 	ast.Inspect(body, func(n ast.Node) bool {
 		call, ok := n.(*ast.CallExpr)
 		if !ok || len(call.Args) != 1 {
@@ -48,26 +140,16 @@ func findMeanExprs(info *types.Info, body ast.Node) []meanExpr {
 		if av == nil || av.IsField() {
 			return true
 		}
-		quo, ok := ast.Unparen(call.Args[0]).(*ast.BinaryExpr)
-		if !ok || quo.Op != token.QUO {
-			return true
+		arg := ast.Unparen(call.Args[0])
+		if id, isID := arg.(*ast.Ident); isID {
+			// k := 1 / float64(B) defined earlier in the same statement list, with
+			// neither B nor the accumulator assigned in between
+			if def, ok := hoisted[info.Uses[id]]; ok && def.validAt(info, call.Pos(), av) {
+				arg = def.rhs
+			}
 		}
-		if tv := info.Types[quo.X]; tv.Value == nil || constant.Compare(constant.ToFloat(tv.Value), token.NEQ, constant.MakeFloat64(1)) {
-			return true
-		}
-		conv, ok := ast.Unparen(quo.Y).(*ast.CallExpr)
-		if !ok || len(conv.Args) != 1 {
-			return true
-		}
-		if tv, ok := info.Types[conv.Fun]; !ok || !tv.IsType() {
-			return true
-		}
-		bid, ok := ast.Unparen(conv.Args[0]).(*ast.Ident)
-		if !ok {
-			return true
-		}
-		bv, _ := info.Uses[bid].(*types.Var)
-		if bv == nil || !isIntVar(bv) || bv.IsField() {
+		bid := reciprocalOfCount(info, arg)
+		if bid == nil {
 			return true
 		}
 		res = append(res, meanExpr{call, av, bid})
